@@ -117,7 +117,10 @@ def money_case(chk, h, convs, label):
             {"k": k + ".add", "e": OP("+", Q(["i", 0], "USD"),
                                       Q(["i", 100], "EUR"))},
             {"k": k + ".gbp", "e": M(Q(["i", 100], "EUR"), "convert",
-                                     U("GBP"))}]
+                                     U("GBP"))},
+            # an amount whose converted value is zero is an answer, too
+            {"k": k + ".zero", "e": M(Q(["i", 0], "EUR"), "convert",
+                                      U("USD"))}]
 
     def build(actions, stack):
         steps = []
@@ -210,7 +213,7 @@ def money_case(chk, h, convs, label):
                     if eq.get("v") is not False:
                         bad.append("%s: no converter active but 100 EUR == "
                                    "100 USD is %s" % (k, brief(eq)))
-                    for kk in (".lt", ".add"):
+                    for kk in (".lt", ".add", ".zero"):
                         if not is_exc(obs.get(k + kk), "UnitConversionError"):
                             bad.append("%s: no converter active but %s gives "
                                        "%s" % (k, kk[1:],
@@ -256,6 +259,14 @@ def money_case(chk, h, convs, label):
                             bad.append("%s: the most recent converter %s has "
                                        "no EUR->GBP rate, but the conversion "
                                        "gives %s" % (k, top, brief(gbp)))
+                    zero = obs.get(k + ".zero")
+                    chk.count("zero amounts converted by the active "
+                              "converter")
+                    if zero is None or zero.get("k") != "Q" or \
+                            val(zero) != 0 or zero["u"] != "USD":
+                        bad.append("%s: 0 EUR -> USD gives %s, the most "
+                                   "recent converter %s says 0 USD" %
+                                   (k, brief(zero), top))
                     lt = obs.get(k + ".lt", {})
                     if lt.get("v") is not True:
                         bad.append("%s: 100 USD < 100 EUR is %s" %
@@ -345,6 +356,8 @@ def generic_case(chk, h, label, bound=False):
         for a, b in (("t0", "t1"), ("t0", "t2"), ("t1", "t2"), ("t1", "t0")):
             st.append({"k": "%s.%s%s" % (k, a, b),
                        "e": M(Q(["i", 10], a), "convert", U(b))})
+        st.append({"k": k + ".zero", "e": M(Q(["i", 0], "t0"), "convert",
+                                            U("t1"))})
         return st
     steps += probe()
     for i, (act, f) in enumerate(h):
@@ -407,6 +420,17 @@ def generic_case(chk, h, label, bound=False):
                             bad.append("%s: %s->%s must be answered by %s "
                                        "(%s), got %s" % (k, a, b, winner,
                                                          want_amt, brief(c)))
+                z = obs.get(k + ".zero")
+                if any(("t0", "t1") in FN[f] for f in exp["reg"]):
+                    chk.count("zero results of generic converters")
+                    if z is None or z.get("k") != "Q" or val(z) != 0 or \
+                            z["u"] != "t1":
+                        bad.append("%s: 0 t0 -> t1 gives %s although a "
+                                   "registered converter answers 0" %
+                                   (k, brief(z)))
+                elif not is_exc(z, "UnitConversionError"):
+                    bad.append("%s: no converter answers t0->t1 but 0 t0 "
+                               "converts to %s" % (k, brief(z)))
             elif exp["kind"] == "ok":
                 if exp.get("again"):
                     chk.count("same converter registered twice")
